@@ -1075,6 +1075,18 @@ func applyMutations(tbl *table, r *btpb.Row, muts []*btpb.Mutation, now bigtable
 			if _, ok := fs[del.FamilyName]; !ok {
 				return fmt.Errorf("unknown family %q", del.FamilyName)
 			}
+			if tsr := del.TimeRange; tsr != nil {
+				// validate the range even if the column is absent
+				if !tbl.validTimestamp(tsr.StartTimestampMicros) {
+					return fmt.Errorf("invalid timestamp %d", tsr.StartTimestampMicros)
+				}
+				if !tbl.validTimestamp(tsr.EndTimestampMicros) && tsr.EndTimestampMicros != 0 {
+					return fmt.Errorf("invalid timestamp %d", tsr.EndTimestampMicros)
+				}
+				if tsr.StartTimestampMicros >= tsr.EndTimestampMicros && tsr.EndTimestampMicros != 0 {
+					return fmt.Errorf("inverted or invalid timestamp range [%d, %d]", tsr.StartTimestampMicros, tsr.EndTimestampMicros)
+				}
+			}
 			fam := getFamily(r, del.FamilyName)
 			if fam == nil {
 				break
@@ -1117,6 +1129,9 @@ func applyMutations(tbl *table, r *btpb.Row, muts []*btpb.Mutation, now bigtable
 		case *btpb.Mutation_DeleteFromRow_:
 			r.Families = nil
 		case *btpb.Mutation_DeleteFromFamily_:
+			if _, ok := fs[mut.DeleteFromFamily.FamilyName]; !ok {
+				return fmt.Errorf("unknown family %q", mut.DeleteFromFamily.FamilyName)
+			}
 			if f := getFamily(r, mut.DeleteFromFamily.FamilyName); f != nil {
 				f.Columns = nil
 			}
